@@ -1,6 +1,6 @@
 (* Proofs about the sorter model (Sort.v): for every boolean less the result is a permutation of the slices
    and everything outside [start,end) is untouched; with a strict weak order there is no adjacent inversion. *)
-From Ristretto Require Import Base.Word Buffer.Buffer Buffer.BufferSpec Buffer.BufferProofs Buffer.Sort.
+From Ristretto Require Import Base.Word Base.ListX Buffer.Buffer Buffer.BufferSpec Buffer.BufferProofs Buffer.Sort.
 From Coq Require Import ZifyN ZifyNat ZifyBool Permutation.
 Open Scope N_scope.
 
@@ -385,3 +385,402 @@ Section SortRec.
           -- apply O2; auto. intros i Hi; apply Hs; lia.
   Qed.
 End SortRec.
+
+(* ------------------------------------------------------------------ walking the slices of [start,end) *)
+Fixpoint decorate (off : N) (L : list (list N)) : list (N * list N) :=
+  match L with
+  | [] => []
+  | s :: tl => (off, enc1 s) :: decorate (off + 8 + lenN s) tl
+  end.
+Fixpoint pick (every count : N) (l : list (N * list N)) : list (N * list N) :=
+  match l with
+  | [] => []
+  | x :: tl => (if count mod every =? 0 then [x] else []) ++ pick every (count + 1) tl
+  end.
+
+Lemma slice_suffix_gen s tl rest memlen boff next :
+  lenN s < two63 -> next + 8 + lenN s <= boff -> boff <= memlen ->
+  slice_suffix (enc_slices (s :: tl) ++ rest) memlen boff next =
+    Some (s, if boff <=? next + 8 + lenN s then None else Some (next + 8 + lenN s)).
+Proof.
+  intros Hs Hb Hm. unfold slice_suffix.
+  rewrite be64_dec_enc, drop8_enc, takeN_app_exact by auto.
+  replace (boff <=? next) with false by lia.
+  replace (memlen <? next + 8) with false by lia.
+  replace (two63 <=? lenN s) with false by lia.
+  now replace (memlen <? next + 8 + lenN s) with false by lia.
+Qed.
+
+Lemma walk_offsets_spec every L : forall fuel rest memlen boff next end_ count,
+  small_slices L -> (length L < fuel)%nat -> end_ = next + lenN (enc_slices L) ->
+  end_ <= boff -> boff <= memlen ->
+  walk_offsets fuel every (enc_slices L ++ rest) memlen boff next end_ count =
+    Some (pick every count (decorate next L)).
+Proof.
+  induction L as [|s tl IH]; intros fuel rest memlen boff next end_ count HL Hf He Hb Hm;
+    (destruct fuel as [|f]; [cbn in Hf; lia|]); cbn [walk_offsets].
+  - change (enc_slices []) with (@nil N) in He. rewrite lenN_nil in He.
+    now replace (next <? end_) with false by lia.
+  - inversion HL; subst.
+    pose proof (lenN_enc1 s) as Ls.
+    assert (He' : lenN (enc_slices (s :: tl)) = 8 + lenN s + lenN (enc_slices tl))
+      by (rewrite enc_slices_cons, lenN_app, Ls; reflexivity).
+    replace (next <? next + lenN (enc_slices (s :: tl))) with true by lia.
+    rewrite slice_suffix_gen by (auto; lia).
+    assert (Tk : takeN (8 + lenN s) (enc_slices (s :: tl) ++ rest) = enc1 s).
+    { rewrite enc_slices_cons, <- app_assoc. apply takeN_app_exact'. lia. }
+    rewrite Tk. cbn [decorate pick].
+    destruct (boff <=? next + 8 + lenN s) eqn:E.
+    + assert (H0 : lenN (enc_slices tl) = 0) by lia. apply lenN_nil_iff, enc_slices_nil_iff in H0. subst tl.
+      cbn [decorate pick]. now rewrite app_nil_r.
+    + rewrite drop_enc1. rewrite (IH f rest memlen boff (next + 8 + lenN s) _ (count + 1)); auto; try lia.
+      cbn [length] in Hf; lia.
+Qed.
+
+Lemma pick_one c l : pick 1 c l = l.
+Proof.
+  revert c; induction l as [|x l IH]; intros c; [reflexivity|]. cbn [pick].
+  replace (c mod 1 =? 0) with true by (rewrite N.mod_1_r; reflexivity). cbn [app]. now rewrite IH.
+Qed.
+
+Definition payload (x : N * list N) : list N := dropN 8 (snd x).
+Lemma decorate_payload off L : map payload (decorate off L) = L.
+Proof. revert off; induction L as [|s L IH]; intros; cbn [decorate map]; [easy|]. unfold payload at 1. cbn [snd]. now rewrite drop8_enc1, IH. Qed.
+Lemma decorate_raw off L : Forall (fun x => snd x = enc1 (payload x)) (decorate off L).
+Proof.
+  revert off; induction L as [|s L IH]; intros; cbn [decorate]; constructor; auto.
+  all: try (unfold payload; cbn [snd]; now rewrite drop8_enc1).
+Qed.
+Lemma decorate_lt off L : Forall (fun x => fst x < off + lenN (enc_slices L)) (decorate off L).
+Proof.
+  revert off; induction L as [|s L IH]; intros; cbn [decorate]; constructor.
+  - cbn [fst]. rewrite enc_slices_cons, lenN_app, lenN_enc1. lia.
+  - specialize (IH (off + 8 + lenN s)). rewrite enc_slices_cons, lenN_app, lenN_enc1.
+    eapply Forall_impl; [|exact IH]. intros a Ha. cbv beta in *. lia.
+Qed.
+Lemma pick_Forall (P : N * list N -> Prop) every c l : Forall P l -> Forall P (pick every c l).
+Proof.
+  intros H; revert c; induction H; intros c; cbn [pick]; [constructor|].
+  apply Forall_app; split; auto. destruct (c mod every =? 0); auto.
+Qed.
+
+Lemma concat_raws l : Forall (fun x => snd x = enc1 (payload x)) l ->
+  concat (map snd l) = enc_slices (map payload l).
+Proof. induction 1 as [|x l Hx _ IH]; [reflexivity|]. cbn [map concat]. rewrite enc_slices_cons, <- Hx, IH. reflexivity. Qed.
+
+Lemma write_raws_spec raws : forall t, tmp_ok t ->
+  exists t', write_raws t raws = Some t' /\ tmp_ok t' /\ bytes t' = bytes t ++ concat raws.
+Proof.
+  induction raws as [|r raws IH]; intros t Ht; cbn [write_raws concat].
+  - exists t. rewrite app_nil_r. auto.
+  - destruct (tmp_write t r Ht) as (t1 & W1 & H1 & B1). rewrite W1.
+    destruct (IH t1 H1) as (t2 & W2 & H2 & B2). exists t2. splits; auto. now rewrite B2, B1, <- app_assoc.
+Qed.
+
+Lemma sorted_map {A B} (f : A -> B) (ltA : A -> A -> bool) (ltB : B -> B -> bool) l :
+  (forall x y, ltA x y = ltB (f x) (f y)) -> sorted_gen ltA l -> sorted_gen ltB (map f l).
+Proof.
+  intros H. induction l as [|a l IH]; [easy|]. intros (H1 & H2). cbn [map]. split; [|auto].
+  destruct l; [exact I|]. cbn [map]. now rewrite <- H.
+Qed.
+
+(* ------------------------------------------------------------------ sortSmall, chunks, SortSliceBetween *)
+Section Top.
+  Variable sorter : (N * list N -> N * list N -> bool) -> list (N * list N) -> list (N * list N).
+  Variable less : list N -> list N -> bool.
+  (* what is assumed of sort.Slice *)
+  Hypothesis sorter_perm : forall lt l, Permutation (sorter lt l) l.
+  Definition sorter_sorts : Prop :=
+    forall lt l, strict_weak_order lt -> sorted_gen lt (sorter lt l).
+
+  Lemma less_raw_swo : strict_weak_order less -> strict_weak_order (less_raw less).
+  Proof. intros (I & T & NT). unfold strict_weak_order, less_raw. splits; intros; eauto. Qed.
+
+  Lemma sort_small_spec pre L post boff tmp start end_ :
+    start = lenN pre -> end_ = start + lenN (enc_slices L) ->
+    end_ <= boff -> boff <= lenN (pre ++ enc_slices L ++ post) ->
+    small_slices L -> tmp_ok tmp ->
+    exists L' t', sort_small sorter less (pre ++ enc_slices L ++ post) boff tmp start end_ =
+                    Some (pre ++ enc_slices L' ++ post, t') /\ tmp_ok t' /\ Permutation L' L /\
+                  (strict_weak_order less -> sorter_sorts -> sorted_by less L').
+  Proof.
+    intros Hs He Hb Hm HL Ht. unfold sort_small.
+    rewrite (dropN_app_exact' start) by auto.
+    rewrite (walk_offsets_spec 1 L); auto.
+    2:{ pose proof (enc_slices_length L). rewrite !app_length. lia. }
+    rewrite pick_one.
+    set (sorted := sorter (less_raw less) (decorate start L)).
+    assert (Ps : Permutation sorted (decorate start L)) by apply sorter_perm.
+    assert (Raw : Forall (fun x => snd x = enc1 (payload x)) sorted).
+    { pose proof (decorate_raw start L) as H. rewrite Forall_forall in *. intros x Hx. apply H.
+      eapply Permutation_in; eauto. }
+    set (L' := map payload sorted).
+    assert (PL : Permutation L' L).
+    { unfold L'. rewrite <- (decorate_payload start L). now apply Permutation_map. }
+    destruct (tmp_reset tmp Ht) as (Hr & Br).
+    destruct (write_raws_spec (map snd sorted) (reset tmp) Hr) as (t & Wt & Ht' & Bt).
+    rewrite Wt, Bt, Br. cbn [app]. rewrite (concat_raws _ Raw). fold L'.
+    assert (Len : lenN (enc_slices L') = end_ - start) by (rewrite (enc_len_perm _ _ PL); lia).
+    replace (lenN (enc_slices L') <? end_ - start) with false by lia.
+    exists L', t. splits; auto.
+    - f_equal. f_equal. rewrite takeN_all by lia. apply splice_app; auto. rewrite Len; lia.
+    - intros Hswo Hsort. unfold sorted_by, L'.
+      apply (sorted_map payload (less_raw less) less); [reflexivity|].
+      apply Hsort. now apply less_raw_swo.
+  Qed.
+
+  (* chunk boundaries *)
+  Fixpoint bounds (off : N) (Cs : list (list (list N))) : list N :=
+    off :: match Cs with [] => [] | C :: tl => bounds (off + lenN (enc_slices C)) tl end.
+
+  Lemma pick_bounds every L : forall off count,
+    exists C0 Cs, L = C0 ++ concat Cs /\
+      map fst (pick every count (decorate off L)) ++ [off + lenN (enc_slices L)] =
+        bounds (off + lenN (enc_slices C0)) Cs /\
+      (count mod every = 0 -> L <> [] -> C0 = []).
+  Proof.
+    induction L as [|s tl IH]; intros off count.
+    - exists [], []. change (enc_slices []) with (@nil N). rewrite lenN_nil. cbn. splits; auto.
+    - destruct (IH (off + 8 + lenN s) (count + 1)) as (C0 & Cs & E1 & E2 & _).
+      assert (Ls : forall X, off + lenN (enc_slices (s :: X)) = off + 8 + lenN s + lenN (enc_slices X)).
+      { intros X. rewrite enc_slices_cons, lenN_app, lenN_enc1. lia. }
+      cbn [decorate pick]. destruct (count mod every =? 0) eqn:Ec.
+      + exists [], ((s :: C0) :: Cs). splits; auto.
+        * cbn [concat app]. now rewrite <- E1.
+        * cbn [app map fst]. change (enc_slices []) with (@nil N). rewrite lenN_nil, N.add_0_r.
+          cbn [bounds]. f_equal. rewrite !Ls, E2. reflexivity.
+      + exists (s :: C0), Cs. splits.
+        * cbn [app]. now rewrite <- E1.
+        * cbn [app]. rewrite !Ls, E2. reflexivity.
+        * intros H. apply N.eqb_neq in Ec. contradiction.
+  Qed.
+
+  Lemma bounds_perm Cs' : forall Cs off, Forall2 (@Permutation (list N)) Cs' Cs -> bounds off Cs' = bounds off Cs.
+  Proof.
+    induction Cs' as [|C' Cs' IH]; intros Cs off H; inversion H; subst; [reflexivity|].
+    cbn [bounds]. f_equal. rewrite (enc_len_perm _ _ H2). now apply IH.
+  Qed.
+  Lemma concat_perm Cs' : forall Cs, Forall2 (@Permutation (list N)) Cs' Cs -> Permutation (concat Cs') (concat Cs).
+  Proof.
+    induction Cs' as [|C' Cs' IH]; intros Cs H; inversion H; subst; [reflexivity|].
+    cbn [concat]. apply Permutation_app; auto.
+  Qed.
+  Lemma small_app_l (A B : list (list N)) : small_slices (A ++ B) -> small_slices A.
+  Proof. unfold small_slices. rewrite Forall_app. tauto. Qed.
+  Lemma small_app_r (A B : list (list N)) : small_slices (A ++ B) -> small_slices B.
+  Proof. unfold small_slices. rewrite Forall_app. tauto. Qed.
+
+  Lemma sort_chunks_spec Cs : forall pre post boff tmp off,
+    off = lenN pre ->
+    off + lenN (enc_slices (concat Cs)) <= boff -> boff <= lenN (pre ++ enc_slices (concat Cs) ++ post) ->
+    small_slices (concat Cs) -> tmp_ok tmp ->
+    exists Cs' t', sort_chunks sorter less (pre ++ enc_slices (concat Cs) ++ post) boff tmp off (tl (bounds off Cs)) =
+                     Some (pre ++ enc_slices (concat Cs') ++ post, t') /\ tmp_ok t' /\
+                   Forall2 (@Permutation (list N)) Cs' Cs /\
+                   (strict_weak_order less -> sorter_sorts -> Forall (sorted_by less) Cs').
+  Proof.
+    induction Cs as [|C Cs IH]; intros pre post boff tmp off Ho Hb Hm HL Ht.
+    - exists [], tmp. cbn. splits; auto.
+    - cbn [bounds tl concat] in *. rewrite enc_slices_app, lenN_app in Hb. rewrite enc_slices_app, <- app_assoc in *.
+      destruct (bounds (off + lenN (enc_slices C)) Cs) as [|o1 rest] eqn:Eb; [destruct Cs; discriminate|].
+      assert (o1 = off + lenN (enc_slices C)) by (destruct Cs; cbn in Eb; congruence). subst o1.
+      assert (rest = tl (bounds (off + lenN (enc_slices C)) Cs)) by now rewrite Eb.
+      cbn [sort_chunks].
+      destruct (sort_small_spec pre C (enc_slices (concat Cs) ++ post) boff tmp off (off + lenN (enc_slices C)))
+        as (C' & t1 & E1 & Ht1 & P1 & S1); auto; try lia.
+      { eapply small_app_l; eauto. }
+      rewrite E1.
+      assert (LC : lenN (enc_slices C') = lenN (enc_slices C)) by now apply enc_len_perm.
+      specialize (IH (pre ++ enc_slices C') post boff t1 (off + lenN (enc_slices C))).
+      rewrite <- !app_assoc in IH.
+      destruct IH as (Cs' & t2 & E2 & Ht2 & P2 & S2); auto.
+      { rewrite lenN_app; lia. }
+      { lia. }
+      { revert Hm. rewrite !lenN_app. lia. }
+      { eapply small_app_r; eauto. }
+      subst rest. rewrite E2.
+      exists (C' :: Cs'), t2. cbn [concat]. rewrite enc_slices_app, <- !app_assoc. splits; auto.
+      all: try (intros Hswo Hsort; constructor; auto).
+  Qed.
+
+  Lemma chunks_seg Cs : forall pre post i,
+    small_slices (concat Cs) -> (i < length Cs)%nat ->
+    seg (pre ++ enc_slices (concat Cs) ++ post)
+        (nth i (bounds (lenN pre) Cs) 0) (nth (S i) (bounds (lenN pre) Cs) 0) (nth i Cs []).
+  Proof.
+    induction Cs as [|C Cs IH]; intros pre post i HL Hi; [cbn in Hi; lia|].
+    cbn [concat] in *. rewrite enc_slices_app, <- app_assoc.
+    destruct i as [|i].
+    - cbn [bounds nth]. replace (nth 0 (bounds (lenN pre + lenN (enc_slices C)) Cs) 0)
+        with (lenN pre + lenN (enc_slices C)) by (destruct Cs; reflexivity).
+      unfold seg. splits; try lia.
+      + rewrite !lenN_app. lia.
+      + apply region_app; auto.
+      + eapply small_app_l; eauto.
+    - cbn [bounds]. change (nth (S (S i)) (lenN pre :: ?l) 0) with (nth (S i) l 0).
+      change (nth (S i) (lenN pre :: ?l) 0) with (nth i l 0). cbn [nth].
+      specialize (IH (pre ++ enc_slices C) post i). rewrite lenN_app, <- app_assoc in IH.
+      apply IH; [eapply small_app_r; eauto|cbn in Hi; lia].
+  Qed.
+
+  Lemma bounds_length off Cs : length (bounds off Cs) = S (length Cs).
+  Proof. revert off; induction Cs; intros; cbn [bounds length]; auto. Qed.
+  Lemma bounds_last Cs : forall off, nth (length Cs) (bounds off Cs) 0 = off + lenN (enc_slices (concat Cs)).
+  Proof.
+    induction Cs as [|C Cs IH]; intros off.
+    - cbn [length bounds nth concat]. change (enc_slices []) with (@nil N). rewrite lenN_nil. lia.
+    - cbn [length bounds nth concat]. rewrite IH, enc_slices_app, lenN_app. lia.
+  Qed.
+  Lemma bounds_hd off Cs : nth 0 (bounds off Cs) 0 = off /\ hd 0 (bounds off Cs) = off.
+  Proof. destruct Cs; auto. Qed.
+  Lemma flat_all Cs : flat (fun i => nth i Cs []) 0 (length Cs) = concat Cs.
+  Proof.
+    unfold flat. rewrite Nat.sub_0_r. f_equal.
+    induction Cs as [|C Cs IH]; [reflexivity|]. cbn [length seq map nth]. f_equal.
+    rewrite <- seq_shift, map_map. exact IH.
+  Qed.
+End Top.
+
+Lemma last_Forall {A} (P : A -> Prop) (l : list A) d : Forall P l -> l <> [] -> P (last l d).
+Proof.
+  induction 1 as [|x l Hx Hl IH]; [easy|]. intros _. destruct l as [|y l]; [exact Hx|].
+  change (P (last (y :: l) d)). apply IH. discriminate.
+Qed.
+Lemma Forall2_length' {A B} (R : A -> B -> Prop) l1 l2 : Forall2 R l1 l2 -> length l1 = length l2.
+Proof. induction 1; cbn; auto. Qed.
+
+Section Final.
+  Variable sorter : (N * list N -> N * list N -> bool) -> list (N * list N) -> list (N * list N).
+  Variable less : list N -> list N -> bool.
+  Hypothesis sorter_perm : forall lt l, Permutation (sorter lt l) l.
+
+  Theorem sort_between_spec b L0 L L2 start end_ :
+    wf b -> bytes b = enc_slices (L0 ++ L ++ L2) -> small_slices (L0 ++ L ++ L2) ->
+    start = pad + lenN (enc_slices L0) -> end_ = start + lenN (enc_slices L) ->
+    exists b' L', sort_slice_between sorter less b start end_ = SortOk b' /\
+      bytes b' = enc_slices (L0 ++ L' ++ L2) /\ Permutation L' L /\ wf b' /\
+      b_padb b' = b_padb b /\ b_rest b' = b_rest b /\ b_off b' = b_off b /\
+      b_curSz b' = b_curSz b /\ b_maxSz b' = b_maxSz b /\ b_mode b' = b_mode b /\ b_auto b' = b_auto b /\
+      (strict_weak_order less -> sorter_sorts sorter -> sorted_by less L').
+  Proof.
+    intros W HB HS Hst Hen. unfold sort_slice_between.
+    destruct L as [|s tl].
+    { change (enc_slices []) with (@nil N) in Hen. rewrite lenN_nil, N.add_0_r in Hen. subst end_.
+      rewrite N.leb_refl. exists b, []. splits; auto. intros _ _. exact I. }
+    set (L := s :: tl) in *.
+    assert (Hl8 : 8 <= lenN (enc_slices L)) by (unfold L; rewrite enc_slices_cons, lenN_app, lenN_enc1; lia).
+    unfold pad in Hst.
+    replace (end_ <=? start) with false by lia. replace (start =? 0) with false by lia.
+    pose proof W as (W1 & W2 & W3). pose proof (wf_mem_len b W) as Hml. unfold pad in *.
+    set (pre := b_padb b ++ enc_slices L0).
+    set (post := enc_slices L2 ++ b_rest b).
+    assert (Hmem : b_mem b = pre ++ enc_slices L ++ post).
+    { unfold b_mem, pre, post. rewrite HB, !enc_slices_app, <- !app_assoc. reflexivity. }
+    assert (Hpre : lenN pre = start) by (unfold pre; rewrite lenN_app; lia).
+    assert (Hboff : b_off b = end_ + lenN (enc_slices L2)).
+    { rewrite W2, <- lenN_bytes, HB, !enc_slices_app, !lenN_app. lia. }
+    assert (Hcur : b_off b <= lenN (b_mem b)) by lia.
+    (* chunk offsets *)
+    cbv zeta. unfold chunk_offsets. rewrite Hmem. rewrite (dropN_app_exact' start) by auto.
+    rewrite (walk_offsets_spec 1024 L); auto; try lia; try (rewrite <- Hmem; lia).
+    2:{ eapply small_app_l, small_app_r; eauto. }
+    2:{ pose proof (enc_slices_length L). rewrite !app_length. lia. }
+    destruct (pick_bounds less 1024 L start 0) as (C0 & Cs & E1 & E2 & E3).
+    rewrite (E3 eq_refl ltac:(discriminate)) in *. clear E3.
+    assert (Hz : lenN (enc_slices []) = 0) by reflexivity. rewrite Hz, N.add_0_r in E2. clear Hz. cbn [app] in E1.
+    assert (Hpick : exists p ps, pick 1024 0 (decorate start L) = p :: ps).
+    { unfold L. cbn [decorate pick]. change (0 mod 1024 =? 0) with true. cbn [app]. eauto. }
+    destruct Hpick as (p & ps & Hpick). rewrite Hpick in *.
+    assert (Hlast : last (map fst (p :: ps)) 0 < end_).
+    { apply last_Forall; [|discriminate]. rewrite <- Hpick.
+      apply Forall_map. apply pick_Forall. subst end_. apply decorate_lt. }
+    replace (last (map fst (p :: ps)) 0 =? end_) with false by lia.
+    rewrite <- Hen in E2. rewrite E2.
+    assert (HCs : Cs <> []) by (intros ->; discriminate).
+    destruct (bounds_hd start Cs) as (_ & Hhd). rewrite Hhd.
+    (* sortSmall on every chunk *)
+    assert (HsL : small_slices L) by (eapply small_app_l, small_app_r; eauto).
+    rewrite E1.
+    destruct (sort_chunks_spec sorter less sorter_perm Cs pre post (b_off b)
+                (new_buffer (tmp_capacity start end_)) start) as (Cs' & t1 & Ec & Ht1 & P2 & S2); auto.
+    { rewrite <- E1. lia. }
+    { rewrite <- E1, <- Hmem. lia. }
+    { now rewrite <- E1. }
+    { apply tmp_ok_new. }
+    rewrite Ec.
+    (* the merge sort over the chunk offsets *)
+    pose proof (bounds_perm Cs' Cs start P2) as Hbp.
+    pose proof (Forall2_length' _ _ _ P2) as Hlen2.
+    assert (HCs' : Cs' <> []) by (intros ->; destruct Cs; [easy|cbn in Hlen2; lia]).
+    assert (HsC' : small_slices (concat Cs')).
+    { eapply small_perm; [symmetry; apply concat_perm; eauto|]. now rewrite <- E1. }
+    rewrite <- Hbp. rewrite bounds_length. replace (S (length Cs') - 1)%nat with (length Cs') by lia.
+    destruct (sort_rec_spec less (bounds start Cs') (fun i => nth i Cs' []) (S (length Cs')) 0 (length Cs')
+                (pre ++ enc_slices (concat Cs') ++ post) t1)
+      as (mem2 & t2 & Er & Ht2 & Lm & Tm & Dm & Y & SY & PY & OY); auto; try lia.
+    { destruct Cs'; [easy|cbn; lia]. }
+    { intros i Hi. rewrite <- Hpre. apply (chunks_seg less); auto. lia. }
+    rewrite Er. rewrite flat_all in PY.
+    destruct (bounds_hd start Cs') as (H0 & _). rewrite H0 in *. rewrite bounds_last in *.
+    assert (LC' : lenN (enc_slices (concat Cs')) = lenN (enc_slices L)).
+    { apply enc_len_perm. rewrite E1. now apply concat_perm. }
+    rewrite LC', <- Hen in *.
+    assert (PYL : Permutation Y L) by (rewrite PY, E1; now apply concat_perm).
+    assert (LY : lenN (enc_slices Y) = lenN (enc_slices L)) by now apply enc_len_perm.
+    assert (Hmem2 : mem2 = pre ++ enc_slices Y ++ post).
+    { destruct SY as (G1 & G2 & G3 & G4).
+      rewrite (mem_split3 mem2 start end_ G1 G2) at 1. rewrite G3, Tm, Dm. f_equal; [|f_equal].
+      - now apply takeN_app_exact'.
+      - rewrite app_assoc. apply dropN_app_exact'. rewrite lenN_app. lia. }
+    exists (set_mem b mem2), Y.
+    assert (Hb' : bytes (set_mem b mem2) = enc_slices (L0 ++ Y ++ L2)).
+    { unfold bytes, set_mem. cbn [b_urev]. rewrite !revT_rev, rev_involutive.
+      rewrite Hmem2. unfold pre, post. rewrite <- !app_assoc.
+      rewrite (dropN_app_exact' 8) by auto.
+      rewrite !enc_slices_app, !app_assoc. apply takeN_app_exact'.
+      rewrite !lenN_app. unfold pad. lia. }
+    splits; auto.
+    - rewrite <- E1. exact PYL.
+    - unfold wf. rewrite <- lenN_bytes, Hb'. unfold set_mem; cbn [b_padb b_off b_rest b_curSz].
+      rewrite Hmem2. unfold pre, post. rewrite <- !app_assoc. splits.
+      + rewrite (takeN_app_exact' 8); auto.
+      + rewrite !enc_slices_app, !lenN_app in *. unfold pad. lia.
+      + rewrite (app_assoc (enc_slices L0)), (app_assoc (enc_slices L0 ++ enc_slices Y)), (app_assoc (b_padb b)).
+        rewrite dropN_app_exact' by (rewrite !lenN_app; lia).
+        rewrite !enc_slices_app, !lenN_app in *. unfold pad. lia.
+    - unfold set_mem; cbn [b_padb]. rewrite Hmem2. unfold pre. rewrite <- !app_assoc.
+      now apply takeN_app_exact'.
+    - unfold set_mem; cbn [b_rest]. rewrite Hmem2. unfold pre, post.
+      rewrite (app_assoc (enc_slices Y)), (app_assoc (b_padb b ++ enc_slices L0)).
+      apply dropN_app_exact'. rewrite !lenN_app. lia.
+    - intros Hswo Hsort. apply OY; auto. intros i Hi.
+      specialize (S2 Hswo Hsort). apply Forall_nth_d; [exact S2|exact I].
+  Qed.
+End Final.
+
+(* ------------------------------------------------------------------ the executable sorter meets the assumptions *)
+Lemma ins_by_perm {A} (lt : A -> A -> bool) x l : Permutation (ins_by lt x l) (x :: l).
+Proof.
+  induction l as [|y l IH]; cbn [ins_by]; [reflexivity|]. destruct (lt x y); [reflexivity|].
+  rewrite IH. apply perm_swap.
+Qed.
+Lemma insertion_sort_perm {A} (lt : A -> A -> bool) l : Permutation (insertion_sort lt l) l.
+Proof.
+  unfold insertion_sort. induction l as [|x l IH]; cbn [fold_right]; [reflexivity|].
+  rewrite ins_by_perm. now constructor.
+Qed.
+Lemma ins_by_sorted {A} (lt : A -> A -> bool) : strict_weak_order lt ->
+  forall x l, sorted_gen lt l -> sorted_gen lt (ins_by lt x l).
+Proof.
+  intros swo x l. induction l as [|y l IH]; intros S; cbn [ins_by]; [now split|].
+  destruct (lt x y) eqn:E.
+  - split; [|exact S]. now apply swo_asym.
+  - apply lb_sorted.
+    + eapply lb_perm; [symmetry; apply ins_by_perm|]. constructor; [exact E|]. apply (sorted_lb lt swo); exact S.
+    + apply IH. eapply sorted_tail; eauto.
+Qed.
+Lemma insertion_sort_sorts : sorter_sorts (@insertion_sort (N * list N)).
+Proof.
+  intros lt l swo. unfold insertion_sort. induction l as [|x l IH]; cbn [fold_right]; [exact I|].
+  now apply ins_by_sorted.
+Qed.
